@@ -390,7 +390,47 @@ def _init_shutdown(run, P):
                "before the release is always non-empty")
 
 
+def _table_users(run, P):
+    """The last-use table is about the linear order of the text: inside a `do` loop
+    the statement that is last in the text is not the last to run.  Whoever
+    decides from the table therefore stands behind a test of the loop depth."""
+    from .util import path_conditions
+    from .c09 import _stmt_of
+    G = P.cls(GEN)
+    n = 0
+    for name, f in sorted(G.methods.items()):
+        reads = [x for x in ast.walk(f.node) if isinstance(x, ast.Attribute)
+                 and x.attr == "last_used_stmt_table" and isinstance(x.ctx, ast.Load)]
+        if not reads:
+            continue
+        n += 1
+        bad = None
+        for x in reads:
+            st = _stmt_of(f.node, x)
+            conds = path_conditions(f.node, st) if st is not None else set()
+            # a loop over the table's items counts as the statement
+            if st is None:
+                for lp in ast.walk(f.node):
+                    if isinstance(lp, ast.For) and any(x is y for y in ast.walk(lp.iter)):
+                        conds = path_conditions(f.node, lp)
+            guarded = any(("loop_nesting_depth" in t) and (
+                (t.strip() in ("self.loop_nesting_depth", "self.loop_nesting_depth > 0",
+                               "self.loop_nesting_depth != 0", "self.loop_nesting_depth >= 1") and not v)
+                or (t.strip() in ("self.loop_nesting_depth == 0", "self.loop_nesting_depth < 1") and v))
+                for t, v in conds)
+            if not guarded:
+                bad = x
+        run.ob("C12.lastuse", f, bad if bad is not None else f.node, bad is None,
+               construct=f"{name} consults self.last_used_stmt_table only where the loop depth is "
+                         f"known to be zero",
+               why="a release or hand-over decided by 'last use' inside a loop takes the storage "
+                   "away in the first iteration while the second still reads it")
+    if n < 1:
+        raise AnalysisError("no consumer of last_used_stmt_table found in the Fortran generator")
+
+
 def _lastuse(run, P):
+    run.do(_table_users, run, P)
     f = P.func("dagrt.codegen.analysis.var_to_last_dependent_statement_mapping")
     from .util import find, first, has
     filt = [n for n in ast.walk(f.node) if isinstance(n, (ast.Continue, ast.Break))
